@@ -118,6 +118,8 @@ func (d *drv) writes(f *fx, n int) {
 		}
 		kind := r.Intn(20)
 		d.rep.Count(fmt.Sprintf("write.kind%02d", kind))
+		// tiny blobs may be in the cache already (then a Write succeeds at once whatever is sent)
+		me := func(x bool) bool { return x && size >= 7 }
 		switch kind {
 		case 0, 1:
 			d.bsWrite(f, mk(payload, 1+r.Intn(4)), -1, true, false)
@@ -141,22 +143,25 @@ func (d *drv) writes(f *fx, n int) {
 		case 5: // the resource name changes
 			ms := mk(payload, 3)
 			other := d.freshBlob(size)
+			for other.hash == b.hash {
+				other = d.freshBlob(size)
+			}
 			ms[1].name = strings.Replace(name, b.hash, other.hash, 1)
-			d.bsWrite(f, ms, -1, true, true)
+			d.bsWrite(f, ms, -1, true, me(true))
 		case 6: // first offset not zero
 			ms := mk(payload, 2)
 			ms[0].off = r.Pick([]int64{1, -1, int64(size), math.MaxInt64, math.MinInt64})
-			d.bsWrite(f, ms, -1, true, true)
+			d.bsWrite(f, ms, -1, true, me(true))
 		case 7: // later offsets garbage (ignored by the server), data intact
 			ms := mk(payload, 3)
 			ms[1].off, ms[2].off = r.Pick(extremes), r.Pick(extremes)
 			d.bsWrite(f, ms, -1, true, false)
 		case 8: // more / fewer bytes than declared
 			if r.Chance(50) {
-				d.bsWrite(f, mk(append(append([]byte{}, payload...), 1, 2, 3), 2), -1, true, true)
+				d.bsWrite(f, mk(append(append([]byte{}, payload...), 1, 2, 3), 2), -1, true, me(true))
 			} else {
 				ms := mk(payload[:len(payload)-1], 2)
-				d.bsWrite(f, ms, -1, true, true)
+				d.bsWrite(f, ms, -1, true, me(true))
 			}
 		case 9: // zstd: garbage, truncated, trailing bytes; the client keeps sending
 			zn := fmt.Sprintf("uploads/u/compressed-blobs/zstd/%s/%d", b.hash, b.size)
@@ -183,7 +188,7 @@ func (d *drv) writes(f *fx, n int) {
 				ms = append(ms, m)
 			}
 			ms[len(ms)-1].fin = r.Chance(50)
-			d.bsWrite(f, ms, -1, true, must)
+			d.bsWrite(f, ms, -1, true, me(must))
 		case 10: // hostile first resource name
 			hn, bad := d.hName(f, true)
 			o := d.bsWrite(f, []wmsg{{name: hn, data: payload, fin: true}}, -1, true, bad)
@@ -203,7 +208,7 @@ func (d *drv) writes(f *fx, n int) {
 		case 13: // finish_write on the first of several messages
 			ms := mk(payload, 3)
 			ms[0].fin = true
-			d.bsWrite(f, ms, -1, true, !z && size > 2)
+			d.bsWrite(f, ms, -1, true, me(!z))
 		case 14: // a stored blob is "uploaded" again with garbage data
 			sb := f.pool[r.Intn(len(f.pool))]
 			sn := fmt.Sprintf("uploads/u/%s/%s/%d", kw, sb.hash, sb.size)
@@ -226,6 +231,9 @@ func (d *drv) writes(f *fx, n int) {
 			d.bsWrite(f, append(all, ms...), -1, true, false)
 		case 18: // wrong hash for the data
 			other := d.freshBlob(size)
+			for other.hash == b.hash {
+				other = d.freshBlob(size)
+			}
 			wn := strings.Replace(name, b.hash, other.hash, 1)
 			ms := mk(payload, 2)
 			for j := range ms {
@@ -233,7 +241,7 @@ func (d *drv) writes(f *fx, n int) {
 					ms[j].name = wn
 				}
 			}
-			d.bsWrite(f, ms, -1, true, true)
+			d.bsWrite(f, ms, -1, true, me(true))
 		default: // messages after finish_write
 			ms := append(mk(payload, 2), wmsg{name: name, data: r.Bytes(10)}, wmsg{data: r.Bytes(10), fin: true})
 			d.bsWrite(f, ms, -1, true, false)
